@@ -45,8 +45,10 @@ SHAPES = {
     "S12": [["a", "int", "req"], ["b", "str", "req"], ["rest", "dictany", "df"]],
     "S13": [["a", "int", "req"], ["r2", "dictany", "req"], ["r1", "dictany", "df"]],
     "S14": [["a", "int", "req"], ["b", "listdv", "dv"]],
+    "S15": [["a", "int", "req"], ["e", "enum", "dv"]],
+    "S16": [["n", "nested", "req"], ["e", "enum", "req"]],
 }
-QUICK_SHAPES = ["S1", "S2", "S3", "S4", "S6", "S8", "S10", "S14"]
+QUICK_SHAPES = ["S1", "S2", "S3", "S4", "S6", "S8", "S10", "S14", "S15"]
 
 
 # ------------------------------------------------------------------------------------------------------------
